@@ -84,6 +84,11 @@ def check(ck):
         init = [n for n in walk_no_nested(s.node) if isinstance(n, ast.Assign) and unparse(n.targets[0]) == "results"]
         ck.ob("execute_fields_serially: the result mapping is a plain dict (insertion order = document order)", len(init) == 1 and unparse(init[0].value) in ("{}", "dict()"), s,
               init[0] if init else s.node, construct="serial:dict")
+    # "in document order": the mapping the serial loop iterates is filled by collect_fields in first-appearance order
+    # (accumulate-form stores only: a key is never removed and re-inserted) - C01.R1-R5
+    with ck.pinned("R4"):
+        from . import c01
+        c01.collection_rules(ck, repo)
     with ck.rule("R3"):
         asyncrules.check_structured_concurrency(ck, repo, ("tartiflette/coercers/", "tartiflette/execution/", "tartiflette/resolver/", "tartiflette/utils/"))
         asyncrules.check_field_execution_gathers(ck, repo)
